@@ -18,6 +18,7 @@ type Obligation struct {
 	Pos       string `json:"pos,omitempty"`
 	OK        bool   `json:"ok"`
 	Detail    string `json:"detail,omitempty"`
+	Requires  string `json:"requires,omitempty"` // what a failure would mean (for discharged obligations)
 	Known     bool   `json:"known_finding,omitempty"`
 }
 
@@ -59,7 +60,13 @@ func (c *Ctx) Check(rule, construct string, pos token.Pos, ok bool, detail strin
 		}
 	}
 	c.seen[key] = true
-	c.Obls = append(c.Obls, Obligation{Rule: rule, Construct: construct, Pos: c.P.Pos(pos), OK: ok, Detail: detail})
+	o := Obligation{Rule: rule, Construct: construct, Pos: c.P.Pos(pos), OK: ok}
+	if ok {
+		o.Requires = detail
+	} else {
+		o.Detail = detail
+	}
+	c.Obls = append(c.Obls, o)
 	return ok
 }
 
@@ -114,6 +121,13 @@ func verifDir() string {
 	return "/verif"
 }
 
+func evidenceDir() string {
+	if d := os.Getenv("VERIF_EVIDENCE_DIR"); d != "" {
+		return d
+	}
+	return filepath.Join(verifDir(), "evidence")
+}
+
 func loadKnown() ([]KnownFinding, error) {
 	data, err := os.ReadFile(filepath.Join(verifDir(), "known_findings.json"))
 	if err != nil {
@@ -152,8 +166,7 @@ type propSpec struct {
 // finish prints results, writes evidence, returns exit code.
 func (c *Ctx) finish(spec *propSpec, tier string, seed int, start time.Time, extra map[string]interface{}) int {
 	known, kerr := loadKnown()
-	vdir := verifDir()
-	evdir := filepath.Join(vdir, "evidence")
+	evdir := evidenceDir()
 	os.MkdirAll(filepath.Join(evdir, "violations"), 0o755)
 	// remove stale replay files for this property
 	if old, _ := filepath.Glob(filepath.Join(evdir, "violations", c.Prop+"-*.json")); old != nil {
